@@ -14,6 +14,7 @@ pub mod c16;
 pub mod c17;
 pub mod c18;
 pub mod c20;
+pub mod c20t;
 pub mod c19;
 pub mod chist;
 pub mod smoke;
@@ -40,6 +41,7 @@ pub fn dispatch(a: &Args) {
 		"c17" => c17::run(a),
 		"c18" => c18::run(a),
 		"c20" => c20::run(a),
+		"c20t" => c20t::run(a),
 		"c13" => c13::run(a),
 		"c14" => c14::run(a),
 		"c16" => c16::run(a),
